@@ -3,7 +3,8 @@
 let sc_params = { mo_tas = SeqCst; mo_clear = SeqCst; mo_st_lock = SeqCst; mo_st_single = SeqCst;
                   mo_ld_wait = SeqCst; mo_ld_busy = SeqCst; mo_ld_once = SeqCst }
 let cell_id = function "cursor" -> 0 | "wlock" -> 1 | "rmtx" -> 2 | "thr" -> 3 | "-" -> 0 | _ -> 99
-let choice_of _op _a _b _c = 0
+(* a futex wait that would have blocked but was interrupted (c = 2) / woke spuriously (c = 3) *)
+let choice_of op _a _b c = if op = "fwait" && c = 2 then 1 else if op = "fwait" && c = 3 then 2 else 0
 let note_of text =
   match words text with
   | ["put"; v] -> (1, int_of_string v)
